@@ -43,6 +43,8 @@ def run(ck):
                "of up to 10^6. non-trivial = distinct vector with >=2 entries not all equal") % (maxn, maxs)
     fails = ck.judge("JObj", traces, {"C20"}, what="C20 objective values", chunk=1500)
     ck.classify(fails, lambda fl: {"alg": fl["trace"]["res"][fl["e"] - 1]["o"], "s": fl["trace"]["s"], "ev": fl["trace"]["res"][fl["e"] - 1]})
+    from .. import magnitude
+    magnitude.run(ck, {"C20"}, 40 if q else 800, objs=True)
     ck.assumptions += ["TLC / SANY / CommunityModules", "ObjectivesDoc.tla is the reading of the documented definitions",
                        "a float result of the weighted objective is mapped to the unique fraction with denominator <= max weight that rounds to it"]
 
